@@ -471,10 +471,15 @@ def generic_check(mod, tier, seed):
             ook, obroken, _, _ = lake_build(["oracle"])
             oracle_ok = ook
         ths = []
+        audit_fail = None
         if bok:
             rc, ths, aout = audit(mod.LEAN_MODULES)
             if rc not in (0, 1) or not ths:
-                res.add_obligation("axiom-audit-ran", False, "audit", aout[-500:])
+                # one retry (a cold first start of the interpreter can be slow)
+                rc, ths, aout = audit(mod.LEAN_MODULES)
+            if rc not in (0, 1) or not ths:
+                audit_fail = "axiom audit did not run (rc=%s): %s" % (rc, aout[-1500:])
+                res.add_obligation("axiom-audit-ran", False, "audit", aout[-1500:])
         toks = forbidden_token_scan()
         res.add_obligation("no-forbidden-tokens(sorry/admit/axiom/native_decide/bv_decide/...)", not toks, "audit", "; ".join(toks))
         hok, hout, _, binpath = build_harness()
@@ -501,6 +506,8 @@ def generic_check(mod, tier, seed):
         broken_names.append("forbidden tokens: " + "; ".join(toks))
     if not gen_ok:
         broken_names.append("T1 regeneration: " + out[-300:])
+    if audit_fail:
+        broken_names.append(audit_fail)
 
     if not hok:
         p = write_replay(mod.ID, "harness-build", {"obligation": "harness-builds-against-working-tree", "output": hout[-3000:]})
